@@ -171,7 +171,20 @@ class TorchCalls(TorchOps):
                 return ListV(items=tuple(ListV(items=(Const(i), x), kind="tuple") for i, x in enumerate(lst.items)))
             if isinstance(lst, ListV):
                 idx = TV(kind="pyint", idx_of=lst.over, note="enumerate-index", origin=frozenset(["loop-index"]))
-                return replace(lst, elem=ListV(items=(idx, lst.elem), kind="tuple"))
+                out = replace(lst, elem=ListV(items=(idx, lst.elem), kind="tuple"), head=None, tail=(), tail_elem=None)
+                pt = lst.parts()
+                ln = tv_of(lst.length) if lst.length is not None else None
+                if pt and ln is not None and ln.poly is not None and len(args) == 1 and not kwargs:
+                    # summarised prefix of known length L, then known items: indices j in [0, L) and L, L+1, ...
+                    head_len = ln.poly - Poly.const(len(pt[1]))
+                    self._enum_n = getattr(self, "_enum_n", 0) + 1
+                    sym = f"e#{self._enum_n}"
+                    self.bound_symbol(sym, Poly.const(0), head_len)
+                    hidx = TV(kind="pyint", note="enumerate-index", origin=frozenset(["loop-index"]), poly=Poly.sym(sym))
+                    tail = tuple(ListV(items=(TV(kind="pyint", note="enumerate-index", origin=frozenset(["loop-index"]), poly=head_len + Poly.const(t)), x), kind="tuple")
+                                 for t, x in enumerate(pt[1]))
+                    out = replace(out, head=ListV(items=(hidx, pt[0]), kind="tuple"), tail=tail, tail_elem=out.elem)
+                return out
             return self.unk("enumerate", node)
         if fn in ("reversed", "sorted"):
             lst = self.to_list(args[0], "list", node)
@@ -575,7 +588,10 @@ class TorchCalls(TorchOps):
                 new = ListV(items=None, elem=args[0] if e is None else join(e, args[0]), kind=lst.kind, order=order, over=lst.over)
                 if lst.items is None and lst.elem is not None and I.join_depth == 0:
                     # appended after the summarised part, outside any abstract loop: remember the exact tail
-                    new = replace(new, head=lst.head if lst.tail else lst.elem, tail=lst.tail + (args[0],))
+                    pt = lst.parts()
+                    ln = tv_of(lst.length) if lst.length is not None else None
+                    new = replace(new, head=pt[0] if pt else lst.elem, tail=(pt[1] if pt else ()) + (args[0],), tail_elem=new.elem,
+                                  length=ln.but(poly=ln.poly + Poly.const(1), size_of=None) if ln is not None and ln.poly is not None else None)
             I.rebind(node.func.value, new, env, node)
             return NONE
         if name in ("extend",):
